@@ -100,7 +100,7 @@ Theorem C14_discard_spec : forall (rs : rules) (c : cfg) (l : hlist) (reads : li
 Proof. exact discard_spec. Qed.
 Print Assumptions C14_discard_spec.
 
-(* The CURRENT early exit is exact when no read name occurs twice ... *)
+(* The legacy early exit is exact when no read name occurs twice ... *)
 Theorem C14_early_exit_exact_for_unique_names : forall (e d h f : bool) (c : cfg) (l : hlist) (reads : list read),
   NoDup (map rname reads) ->
   run (mkRules e d h f) c l reads = run (mkRules false d h f) c l reads.
